@@ -50,7 +50,7 @@ def partition_of(pre):
     return {frozenset(v) for v in groups.values()}
 
 
-def same_sliced_up_to_numbers(a, b):
+def same_sliced_up_to_numbers(a, b, exact=True):
     if a["DofCount"] != b["DofCount"]:
         return "equation count %d vs %d" % (a["DofCount"], b["DofCount"])
     ba, bb = {x["ID"]: x for x in a["Bars"]}, {x["ID"]: x for x in b["Bars"]}
@@ -63,6 +63,11 @@ def same_sliced_up_to_numbers(a, b):
         for x, y in zip(na, nb):
             for f in ("T", "X", "Y", "Ext", "Left", "Right"):
                 if x[f] != y[f]:
+                    if not exact and f in ("Ext", "Left", "Right"):
+                        # load lines listed in another order are added up in another order: a few units in the last place
+                        mag = sum(abs(C.ffloat(v)) for v in x[f]) + sum(abs(C.ffloat(v)) for v in y[f])
+                        if all(abs(C.ffloat(p) - C.ffloat(q)) <= Fr(1, 10 ** 12) * mag for p, q in zip(x[f], y[f])):
+                            continue
                     return "bar %s: slice node %s differs (%s vs %s)" % (k, f, x[f], y[f])
     if partition_of(a) != partition_of(b):
         return "the equation numbers induce different partitions of the unknowns"
@@ -150,7 +155,7 @@ def oracle(c, o):
             fails.append("%s: %s" % (what, (oB.get("ParsePanic") or "preprocessing failed")[:150]))
             continue
         if role in ("schedule", "repeat", "reordered"):
-            d = same_sliced_up_to_numbers(oA["Pre"][0], oB["Pre"][0])
+            d = same_sliced_up_to_numbers(oA["Pre"][0], oB["Pre"][0], exact=(role != "reordered"))
             if d:
                 fails.append("%s: %s" % (what, d))
                 continue
